@@ -43,7 +43,17 @@ func vpH_C11_crc() {
 	mode := g.mode("b")
 	g.done()
 	seg := vpBuild(docs, mode)
-	switch vpChoice("variant", 4) {
+	switch vpChoice("variant", 5) {
+	case 4:
+		// loaded from file-backed storage (io.ReaderAt) and persisted again
+		b := vpPersist(seg)
+		l, _ := vpLoadFile(b)
+		vpNote("feat:re-persist-file-backed")
+		b2 := vpPersist(l)
+		vpAssert(len(b2) == len(b), "re-persisted file has the same length")
+		vpAssert(vpBytesEq(b2, b), "persisting a file-backed loaded segment reproduces the file byte for byte")
+		vpFooterCheck("re-persisted (file-backed)", b2, uint64(len(docs)), mode)
+		vpReach("C11 loaded file")
 	case 0:
 		vpFooterCheck("built", vpPersist(seg), uint64(len(docs)), mode)
 		vpReach("C11 built")
